@@ -78,7 +78,7 @@ mod msgq {
             }
         }
 
-        #[cfg(test)]
+        #[cfg(any(test, librqbit_utp_verif))]
         pub fn len_bytes(&self) -> usize {
             self.len_bytes
         }
@@ -346,6 +346,16 @@ impl UserRx {
 
     pub fn is_reader_dropped(&self) -> bool {
         self.shared.locked.lock().reader_dropped
+    }
+
+    /// Verification only: (bytes queued for the reader, reassembly messages, reassembly bytes).
+    #[cfg(librqbit_utp_verif)]
+    pub fn verif_buffered(&self) -> (usize, usize, usize) {
+        (
+            self.shared.locked.lock().queue.len_bytes(),
+            self.ooq.len,
+            self.ooq.len_bytes,
+        )
     }
 
     /// How many bytes does the user half have available. If the user is not reading, and the buffer is filled up,
